@@ -6,7 +6,7 @@ def run(ctx):
     quick = ctx.quick()
     # (a) design: every history of the adaptive loop / fixed variant within the bounds of the cfg
     ctx.design("MC_MLMC", "MLMC_quick.cfg" if quick else "MLMC_thorough.cfg",
-               constants="ConfsQuick" if quick else "ConfsThorough", timeout=3000)
+               constants="ConfsQuick" if quick else "ConfsThorough", timeout=3000 if quick else 14400)
     ctx.exhaustive = True
     # regression demonstration kept in the model: with the pinned counter (1) TLC finds the padded row
     r = ctx.design("MC_MLMC", "MLMC_pinned.cfg", constants="ConfsPinned (newCounter = 1)",
